@@ -118,18 +118,21 @@ macro_rules! buf_ops {
     pub mod $modn {
       use super::*;
 
-      fn ptr_res<T>(p: *const T, base: usize) -> Value {
+      /// `start` = (address of the buffer's own first byte, its offset in the arena): the pointer is reported as
+      /// an arena offset *through the buffer's own pointer* (a zero-capacity handle has no memory behind it).
+      fn ptr_res<T>(p: *const T, start: (usize, usize)) -> Value {
         let addr = p as usize;
         let al = core::mem::align_of::<T>();
         if core::mem::size_of::<T>() == 0 {
           return json!({"k": "ok", "zst": true, "poff": 0, "pmod": 0});
         }
-        json!({"k": "ok", "zst": false, "poff": sat(addr.wrapping_sub(base) as u64), "pmod": addr % al})
+        json!({"k": "ok", "zst": false, "poff": sat((addr.wrapping_sub(start.0).wrapping_add(start.1)) as u64), "pmod": addr % al})
       }
 
-      fn align_t<T, A: ArenaX>(b: &mut $B, base: usize) -> Value {
+      fn align_t<T, A: ArenaX>(b: &mut $B, _base: usize) -> Value {
+        let start = (b.as_mut_ptr() as usize, b.offset());
         match b.align_to::<T>() {
-          Ok(p) => ptr_res::<T>(p.as_ptr(), base),
+          Ok(p) => ptr_res::<T>(p.as_ptr(), start),
           Err(_) => err(),
         }
       }
@@ -141,23 +144,25 @@ macro_rules! buf_ops {
         Some(unsafe { core::ptr::read_unaligned(bytes.as_ptr().cast::<T>()) })
       }
 
-      fn put_t<T: Copy, A: ArenaX>(b: &mut $B, base: usize, bytes: &[u8]) -> Value {
+      fn put_t<T: Copy, A: ArenaX>(b: &mut $B, _base: usize, bytes: &[u8]) -> Value {
         let Some(v) = value_of::<T>(bytes) else { return bad() };
+        let start = (b.as_mut_ptr() as usize, b.offset());
         // documented safety contract of `put`: align_to first (the position must be aligned for T)
         let pos = b.as_mut_ptr() as usize + b.len();
         if core::mem::size_of::<T>() != 0 && pos % core::mem::align_of::<T>() != 0 {
           return precond();
         }
         match unsafe { b.put::<T>(v) } {
-          Ok(r) => ptr_res::<T>(r as *const T, base),
+          Ok(r) => ptr_res::<T>(r as *const T, start),
           Err(_) => err(),
         }
       }
 
-      fn putal_t<T: Copy, A: ArenaX>(b: &mut $B, base: usize, bytes: &[u8]) -> Value {
+      fn putal_t<T: Copy, A: ArenaX>(b: &mut $B, _base: usize, bytes: &[u8]) -> Value {
         let Some(v) = value_of::<T>(bytes) else { return bad() };
+        let start = (b.as_mut_ptr() as usize, b.offset());
         match unsafe { b.put_aligned::<T>(v) } {
-          Ok(r) => ptr_res::<T>(r as *const T, base),
+          Ok(r) => ptr_res::<T>(r as *const T, start),
           Err(_) => err(),
         }
       }
